@@ -468,6 +468,8 @@ def _cls(code):
 # full-stack sample over loopback TCP (real threads): the same checkers
 # --------------------------------------------------------------------------
 def tcp_case(res, case, attempt=0):
+    import time as _time
+    t0 = _time.monotonic()
     from pynetdicom2 import applicationentity, exceptions, sopclass, statuses, dsutils
     import pydicom
     import threading
@@ -600,7 +602,9 @@ def tcp_case(res, case, attempt=0):
             error = exc
     tcpnet.wait_quiet(0, 3.0)
     res.notes['interleaving_signatures'] = [net.signature()]
-    if tcpnet.is_timeout(error) and attempt < 2:
+    if error is not None and attempt < 2 and (tcpnet.is_timeout(error) or _time.monotonic() - t0 >= 4.0):
+        # (one side's 5 s time-out reaches the other as an abort: a failure that took that long is re-run
+        # alone before it counts)
         res.count('flaky-timeouts')
         return tcp_case(res, case, attempt + 1)
     res.count('oracle.tcp-sample')
